@@ -111,6 +111,8 @@ pub struct GenCfg {
     pub int_divf: bool,
     /// never print a float literal with an integral value (finding C14-float-loses-fraction)
     pub no_integral_floats: bool,
+    /// prefer `append` and projections after it (C05's set-operation search)
+    pub append_boost: bool,
 }
 
 impl GenCfg {
@@ -127,6 +129,7 @@ impl GenCfg {
             hazards: vec![],
             int_divf: true,
             no_integral_floats: false,
+            append_boost: false,
         }
     }
 }
@@ -2050,6 +2053,24 @@ impl<'t, 'd> Gen<'t, 'd> {
                 w[8] = 0;
                 w[9] = 0;
                 w[10] = 0;
+            }
+            if self.cfg.append_boost {
+                if !self.after_append {
+                    // simple tops with nested computed columns: derive, then select over them
+                    w[1] *= 3;
+                    w[0] *= 2;
+                    for i in [3, 4, 5, 6, 7, 8] {
+                        w[i] = w[i].min(1);
+                    }
+                }
+                if w[9] > 0 {
+                    w[9] = 12;
+                }
+                if self.after_append {
+                    w[0] *= 3;
+                    w[10] = w[10].max(1) * 3;
+                    w[1] *= 2;
+                }
             }
             if !known {
                 // exclusion over a wildcard frame
